@@ -63,6 +63,29 @@ def calSpec {ν : Type} (fs : Nat → Table ν) (ver : Nat → Option Nat) (r : 
   { value := mergeCustom (fs r.file r.sat) r.custom,
     version := if r.custom.isEmpty then ver r.file else none }
 
+/-! ### The reader's options (`Reader.__init__`, `get_calibrated_dataset`)
+
+How the custom set and the file reach the calibration: `calibration_parameters` (a dictionary that may hold
+`custom_coeffs` and / or `coeffs_file`) or, when that dictionary is empty or absent, the legacy keywords
+`custom_calibration` / `calibration_file`. -/
+
+/-- the two calibration inputs as named by the caller; `none` = not given (or given as `None`) -/
+structure CalOpts (ν : Type) where
+  custom : Option (List (Nat × ν))
+  file : Option Nat
+
+/-- `self.calibration_parameters`: `params` = the non-empty dictionary if one was given (`none` for an absent or
+empty one: `calibration_parameters or dict()` followed by `if not self.calibration_parameters`) -/
+def readerOpts {ν : Type} (params : Option (CalOpts ν)) (legacyCustom : Option (List (Nat × ν)))
+    (legacyFile : Option Nat) : CalOpts ν :=
+  match params with
+  | some p => p
+  | none => ⟨legacyCustom, legacyFile⟩
+
+/-- `calibrate(ds, custom_coeffs=None, coeffs_file=None)` -> `Calibrator(sat, custom_coeffs or {}, coeffs_file)`:
+no file = the shipped file (id 0), no custom set = the empty one -/
+def readerReq {ν : Type} (sat : Nat) (o : CalOpts ν) : Req ν := ⟨sat, o.file.getD 0, o.custom.getD []⟩
+
 /-! ### Files that change on disk during a history
 
 The cache is keyed by the file NAME (`cls.default_file != coeffs_file`), so what a request sees depends on
